@@ -77,12 +77,16 @@ theorem fit_error_iff_none (o : KSOrd ρ) (c : Cmp) (init : Init) (ks : List (Op
   unfold univariateFit
   cases selectWith o c init ks <;> simp
 
-/-- non-vacuity / sanity on `Fin 5` (4 = `+inf`): failures and NaN are skipped, the first of two
-    equal minima wins, an all-unfittable list selects nothing. -/
+/-- non-vacuity / sanity on `Fin 5` (4 = `+inf`): failures and NaN are skipped and the minimum is
+    found (no ties here, so this holds for `<` and `<=` alike); an all-unfittable list selects
+    nothing; with strict `<` the first of two equal minima wins; the acceptor takes either. -/
 example : selectWith (linOrd (Fin 5)) Gen.Select.cmp Gen.Select.init
-    [none, some (.val 3), some .nan, some (.val 1), some (.val 1), some (.val 4)] = some 3 := by decide
+    [none, some (.val 3), some .nan, some (.val 1), some (.val 2), some (.val 4)] = some 3 := by decide
 example : selectWith (linOrd (Fin 5)) Gen.Select.cmp Gen.Select.init [none, some .nan] = none := by decide
+example : selectUnivariate (linOrd (Fin 5)) [none, some (.val 3), some (.val 1), some (.val 1)] = some 2 := by
+  decide
 example : isMinimiser (linOrd (Fin 5)) [none, some (.val 3), some (.val 1), some (.val 1)] 3 = true ∧
+    isMinimiser (linOrd (Fin 5)) [none, some (.val 3), some (.val 1), some (.val 1)] 2 = true ∧
     isMinimiser (linOrd (Fin 5)) [none, some (.val 3), some (.val 1), some (.val 1)] 1 = false := by decide
 
 /-! ## Candidate enumeration -/
